@@ -565,6 +565,7 @@ Proof.
     destruct (ch_cur ch) as [u|]; [|apply CI_apply_err; exact H0].
     destruct (get_msg _ u) as [m|]; [|exact H0].
     destruct (negb (m_has_header m)); [apply CI_apply_err; exact H0|].
+    destruct (_ <? _); [apply CI_apply_err; cbn [fst]; apply allch_upd_chan; auto|].
     destruct (_ <? _); [|apply CI_finish_publish]; same_conns; auto.
   - (* LConsumerTurn *) apply CI_consumer_turn; auto.
   - (* LQueueLoop *) cbn [fst]. apply CI_queue_loop_turn; auto.
